@@ -21,7 +21,9 @@ Decided (structural clauses, narrow):
   R45.3 what quote() emits is one lexer token: "[^"]*" and '[^']*' are included in the language of the lexer's
         quoted-string regex (language inclusion on the parsed regex); unquote() strips exactly one matching quote pair.
   R45.4 CommandManager.execute drops only Space tokens and unquotes every other token exactly once (execute interpreted from its AST
-        on a token list holding every token type and quote shape; parse_partial / call_strings replaced by stubs).
+        on a token list holding every token type and quote shape; parse_partial / call_strings replaced by stubs).  How execute collects
+        the words does not matter: a generator expression, a list, map()/filter(), a loop, or a module-level generator helper that is
+        star-unpacked (``name, *args = _argv(parts)``) are all interpreted.
   R45.5 (E3, pyint) end to end, from the command line to the argument type: ``CommandManager.execute`` -> ``parse_partial`` ->
         ``call_strings`` -> ``Command.call`` -> ``prepare_args`` -> ``parsearg`` are interpreted from their AST on the line
         ``<cmd> quote(v) <tail>`` (the lexer replaced by the token model above, ``inspect.Signature.bind`` real, the argument type an
@@ -148,7 +150,7 @@ def check(ctx):
     from ..pyint import Raised
 
     def run(fname, arg):
-        it = Interp(m, trusted_modules={"re": _re, "logging": NullLog()})
+        it = _interp_cls()(m, trusted_modules={"re": _re, "logging": NullLog()})
         try:
             return it.call(LEX, fname, arg)
         except Raised as r:
@@ -284,6 +286,27 @@ class _Sig:
         return self._sig.bind(*a, **kw)
 
 
+_CINTERP: list = []
+
+
+def _interp_cls():
+    """pyint with star-unpacking of a lazily iterated generator (``name, *rest = gen_helper(parts)``): the core's ``assign`` takes ``len()`` of
+    the iterated value, which a generator helper's lazy iterator does not have - the values are drawn first (workaround, see report)."""
+    if _CINTERP:
+        return _CINTERP[0]
+    from ..pyint import Gen
+    from ..pyint import Interp
+
+    class _CInterp(Interp):
+        def assign(self, target, value, env, mod, depth):
+            if isinstance(target, (ast.Tuple, ast.List)) and (isinstance(value, Gen) or (hasattr(value, "__next__") and not isinstance(value, (list, tuple)))):
+                value = list(self.iterate(value, target))
+            return super().assign(target, value, env, mod, depth)
+
+    _CINTERP.append(_CInterp)
+    return _CInterp
+
+
 def _harness(ctx):
     """A pyint interpreter for mitmproxy/command.py with `mitmproxy.types` bound to the real module except for CommandTypes (identity
     argument type for str / Cmd / CmdArgs), a CommandManager record with one command ``show(*values: str)`` and the list of calls it received."""
@@ -307,7 +330,7 @@ def _harness(ctx):
     received: list = []
     ident = Func(m.module(CMD), ast.parse("lambda manager, t, s: s").body[0].value)
     argtype = Rec("ArgType", parse=ident)
-    it = Interp(m, trusted_modules={"inspect": inspect, "logging": NullLog()})
+    it = _interp_cls()(m, trusted_modules={"inspect": inspect, "logging": NullLog()})
     it.overrides[(CMD, "mitmproxy")] = _types.SimpleNamespace(types=("$module", tm))
     it.overrides[(TYPES, "CommandTypes")] = {str: argtype, marker("Cmd"): argtype, marker("CmdArgs"): argtype}
     mgr = Rec("CommandManager", _impl=(CMD, "CommandManager"), master=None)
